@@ -29,6 +29,20 @@ claims.update({
    'Not decided: the interval-overlap statement over real interleavings, liveness.',
    'DESIGN.md 3.C07'),
 })
+claims.update({
+ 'C04': ('other', 'value-flow of contexts/durations, select/goroutine shape on paths (goroutines analysed in place), lock-and-flag discipline, who-may-write the real ResponseWriter',
+   'Each timeout wrapper derives the work context through exactly one context.WithTimeout(caller ctx, configured duration) and hands that to the work; the work runs only in the goroutine, the caller selects on ctx.Done() and on that branch neither waits for completion nor takes a mutex held across the work; REST: the work gets a buffering writer, every method reaching the real writer holds the mutex and has seen timedOut false, timeout branch sets timedOut under the mutex and writes 499 iff canceled else 503, completion copies headers/status/body under the mutex; zRPC timeout branch never returns the handler response; exemptions are exactly websocket upgrade and event-stream.',
+   'Not decided: real-time behaviour (returns AT the deadline), chunk/expiry races beyond the lock discipline. Known finding F1b (Flush before the deadline streams partial output by design).',
+   'DESIGN.md 3.C04'),
+ 'C06': ('other', 'who-may-call on the redis handle, TTL value-flow + algebraic normal form of the jitter, path table of doTake, sibling agreement of invalidate-after-write (sqlc, monc)',
+   'Cache node talks to Redis only through Get/Del/Setex/SetnxEx; every TTL is ceil(seconds) of the requested or +-5% jittered configured expiry (formula by normal form; non-positive configured expiries replaced); in doTake the query runs only inside the barrier keyed by the cache key and only after a genuine miss; not-found caches the placeholder, other DB errors are returned and nothing cached, success caches the row; all Take* of both Cache implementations funnel into doTake; Exec invalidates after a successful write only; every keyed monc mutator deletes its keys after the DB call; failed deletes are retried detached from the request context.',
+   'Not decided: read-your-writes over histories, at-most-one-query under schedules (C07 rules carry the ordering facts), actual TTL values.',
+   'DESIGN.md 3.C06'),
+ 'C18': ('other', 'gate dominance on all paths of the middlewares, key-function value flow, forbidden-API reference scan, signature-input coverage by value flow',
+   'Protected handler runs only on paths where ParseToken returned no error, all others write 401; key function returns the configured secret bytes without inspecting the token; no none-alg / unverified parse anywhere in the module; registered claims filtered; behind strict content security the handler runs only after ParseContentSecurity ok and VerifySignature == CodeSignaturePass; HMAC input covers timestamp, method, path, query, body digest, keyed by the decrypted secret, compared after the tolerance test; cryption handler decrypts before and encrypts after the handler.',
+   'Not decided: cryptographic strength, payload round trips. Known findings F5a (unsigned PATCH/HEAD/OPTIONS bypass the strict gate) and F5b (X-Request-Uri replaces the signed path).',
+   'DESIGN.md 3.C18'),
+})
 not_built_reason = 'static rules designed (DESIGN.md section 3) but not built yet in this revision'
 
 checks, na = [], []
